@@ -12,6 +12,7 @@
 Transportation1dSorter::Transportation1dSorter(
     const std::vector<long long> &u, const std::vector<long long> &v,
     const std::vector<long long> &s, const std::vector<long long> &d) {
+  nbSources_ = u.size();
   // Sort the sources and sinks
   std::vector<std::pair<long long, long long>> srcSort;
   srcSort.reserve(u.size());
@@ -71,8 +72,10 @@ Transportation1dSorter::Solution Transportation1dSorter::convertSolutionBack(
 
 std::vector<int> Transportation1dSorter::convertAssignmentBack(
     const std::vector<int> &a) const {
+  // Sources without supply are dropped by the sorter and are not part of a;
+  // they still get a valid sink so that the result covers every source
   std::vector<int> ret;
-  ret.resize(a.size());
+  ret.assign(nbSources_, snkOrder.empty() ? 0 : snkOrder.front());
   for (size_t i = 0; i < a.size(); ++i) {
     ret[srcOrder[i]] = snkOrder[a[i]];
   }
